@@ -164,6 +164,8 @@ def c02(tier):
     quick = tier == "quick"
     cases = list(lgrams.CURATED_GREEDY) + lgrams.random_specs(seed() + 2, 30 if quick else 400)
     cases += lgrams.range_triple_specs(random.Random(seed() + 22), 40 if quick else 600)
+    cn = lgrams.card_nesting_specs()
+    cases += cn if not quick else cn[seed() % 2::2]
     cases = json.loads(json.dumps(cases))
     X = lex_explore(rep, sc, cases, rng, 500 if quick else 4000, 150 if quick else 600, 20 if quick else 120)
     acc, lruns = X["acc"], X["lruns"]
